@@ -270,13 +270,13 @@ def check_class(src, cls):
     want_refuse = sorted(norm(g) for g in guards)
     got_refuse = sorted(norm(p.guards[-1]) for p in refusing)
     if want_refuse != got_refuse:
-        bad.append(('%s.__init__ refuses under %r, contract says %r' % (cls, got_refuse, want_refuse), ' or '.join('(%s)' % g for g in got_refuse) or 'False', (' or '.join('(%s)' % g for g in want_refuse) or 'False',)))
+        bad.append(('%s.__init__ refuses under %r, contract says %r' % (cls, got_refuse, want_refuse), ' or '.join('(%s)' % g for g in got_refuse) or 'False', (' or '.join('(%s)' % g for g in want_refuse) or 'False',), []))
     for p in normal:
         for f, e in fields.items():
             got = text(p.fields[f]) if f in p.fields else '<unset>'
             alts = e if isinstance(e, tuple) else (e,)          # a field that depends on which optional argument was given
             if norm(got) not in [norm(x) for x in alts]:
-                bad.append(('%s.__init__: self.%s == %s, contract says %s' % (cls, f, got, ' or '.join(norm(x) for x in alts)), got, alts))
+                bad.append(('%s.__init__: self.%s == %s, contract says %s' % (cls, f, got, ' or '.join(norm(x) for x in alts)), got, alts, list(p.guards)))
         if sorted(norm_loop(x) for x in p.loops) != sorted(norm_loop(x) for x in loops):
             bad.append('%s.__init__: loops %r, contract says %r' % (cls, p.loops, loops))
     return bad, False
@@ -324,12 +324,23 @@ def _same(a, b):
         return repr(x) == repr(y)
 
 
-def distinguish(C, got, want):
-    """an argument sample on which the two expressions differ, or None (then the textual difference may be harmless)"""
+def distinguish(C, got, alts, guards=()):
+    """an argument sample, among those on which the path is taken (its guards hold), on which the computed expression equals NONE of
+    the stated alternatives; None when every such sample agrees with one of them (then the textual difference may be harmless).
+    Alternatives exist for fields that depend on which optional argument was given: the stated values are per path, so a sample
+    is compared with the alternative that the SAME sample selects when the alternatives are written as one expression."""
+    seen = 0
     for env in _samples(C):
-        a, b = _eval(C, got, env), _eval(C, want, env)
-        if not _same(a, b):
-            return {k: repr(v)[:60] for k, v in env.items() if k.rstrip("'") in got or k.rstrip("'") in want}, a, b
+        try:
+            if not all(_eval(C, g, env) == ('value', True) or (_eval(C, g, env)[0] == 'value' and bool(_eval(C, g, env)[1])) for g in guards):
+                continue
+        except Exception:
+            continue
+        seen += 1
+        a = _eval(C, got, env)
+        bs = [_eval(C, w, env) for w in alts]
+        if not any(_same(a, b) for b in bs):
+            return {k: repr(v)[:60] for k, v in env.items() if k.rstrip("'") in got or any(k.rstrip("'") in w for w in alts)}, a, bs[0]
     return None
 
 
@@ -345,13 +356,12 @@ def enumerate_ctors(src, pid, C=None):
             if und or not isinstance(item, tuple):
                 (undecided if und else bad).append(item if not isinstance(item, tuple) else item[0])
                 continue
-            msg, got, alts = item
-            # a textual difference is a violation only when some argument values tell the two expressions apart on the real classes;
+            msg, got, alts, guards = item
+            # a textual difference is a violation only when some argument values tell the expressions apart on the real classes;
             # otherwise it may be a harmless rewrite: undecided
             w = None
             if C is not None:
-                ws = [distinguish(C, got, a) for a in alts]
-                w = None if any(x is None for x in ws) else ws[0]
+                w = distinguish(C, got, alts, guards)
             if C is None or w is not None:
                 bad.append(msg + ('' if w is None else '   [arguments %s: code gives %s, contract %s]' % (w[0], w[1], w[2])))
             else:
